@@ -482,7 +482,7 @@ def based_atoms(cfg):
     out = []
     digits = {2: "101", 3: "12", 4: "123", 5: "40", 6: "51", 7: "66", 8: "177", 9: "80", 10: "99", 11: "a1",
               12: "B0", 13: "c", 14: "Dd", 15: "e0", 16: "FfA0"}
-    if cfg == "PVL":
+    if cfg in ("PVL", "ISIS"):      # ISISGrammar inherits the PVL based-integer syntax: [sign]radix#digits#, radix 2, 8, 16
         for r in (2, 8, 16):
             for sg in ("", "+", "-"):
                 out.append((f"based-int:radix-{r}:sign-before{sg or '-none'}", ("based", f"{sg}{r}#{digits[r]}#")))
@@ -621,6 +621,9 @@ def core_atoms(cfg):
             "time:hm", "time:hms:Z", "time:hms-frac1", "datetime:ymdThms", "datetime:doyThm:Z"]
     if cfg == "PVL":
         want += ["based-int:radix-16:sign-before-none", "based-int:radix-2:sign-before-", "ustr:dash", "ustr:slash"]
+    elif cfg == "ISIS":
+        want += ["based-int:radix-16:sign-before-none", "based-int:radix-2:sign-before-", "ustr:dash", "ustr:slash",
+                 "ustr:plus-inside"]
     elif cfg in STRICT_ODL:
         want += ["based-int:radix-16", "based-int:radix-2:sign-after-"]
     else:
